@@ -894,11 +894,7 @@ def evaluate__apply(self: XPathFunction, context: ta.ContextType = None) \
     if self.context is not None:
         context = self.context
 
-    if isinstance(self[0], XPathFunction):
-        func = self[0]
-    else:
-        func = self.get_argument(context, required=True, cls=XPathFunction)
-
+    func = self.get_argument(context, required=True, cls=XPathFunction)
     array_ = self.get_argument(context, index=1, required=True, cls=XPathArray)
 
     try:
